@@ -101,6 +101,23 @@ def cases(tier, seed):
                        'nmin': 2400},
                 'n_tuples': 2600,
                 'seed': int(r.randint(1000))})
+  # points far from the origin: the default bounds are percentiles of
+  # *distances*, which do not know where the origin is
+  for i in range(6 if q else 120):
+    r = rng_for('c11-far', seed, i)
+    out.append({'est': ['ITML', 'ITML_Supervised'][i % 2], 'mode': 'default',
+                'scale': 1.0,
+                'params': dict({'prior': PRIORS[i % 3],
+                                'gamma': [1.0, 10.0, 500.0][(i // 2) % 3],
+                                'max_iter': int(r.choice([3, 40])),
+                                'tol': 1e-6},
+                               **({'n_constraints': int(r.choice([20, 50]))}
+                                  if i % 2 else {})),
+                'ds': {'seed': int(r.randint(2**31 - 1)),
+                       'd': int(r.randint(2, 6)), 'classes': 2,
+                       'variant': 'far_offset', 'nmax': 40},
+                'n_tuples': int(r.choice([12, 20, 30])),
+                'seed': int(r.randint(1000))})
   return out
 
 
@@ -204,14 +221,16 @@ def run_case(spec, j):
     # documented default: 5th and 95th percentile of the Euclidean distances
     # between the distinct points of the pairs (brute force over all pairs
     # of points)
+    # (from coordinate differences, which stay accurate wherever the points
+    # lie; the tolerance is relative to the distances, not to the
+    # coordinates)
+    from scipy.spatial.distance import pdist
     P = pts
-    G = (P ** 2).sum(1)[:, None] + (P ** 2).sum(1)[None, :] - 2 * P.dot(P.T)
-    iu = np.triu_indices(len(P), k=1)
-    dd = np.sqrt(np.maximum(G[iu], 0.0))
+    dd = pdist(P)
     want = np.percentile(dd, (5, 95))
     j.close('C11.default-bounds-documented', bounds, want,
-            1e-7 * np.abs(want) + 1e-9 * np.abs(P).max(),
-            dict(det, n_points=len(P)))
+            1e-7 * np.abs(want) + 64 * np.finfo(float).eps * np.abs(P).max(),
+            dict(det, n_points=len(P), offset=float(np.abs(P.mean(0)).max())))
   gamma = p['gamma']
   frames = [fr for fr in _cap['frames']]
   if _cap['code'] is None or len(frames) != 1 or frames[0][1]:
@@ -268,7 +287,7 @@ def run_case(spec, j):
   # rounding error of a few ulps relative to the largest intermediate value;
   # runs that exhaust max_iter on conflicting hard constraints (K ~ 1e5) were
   # observed at 1.03e-6 (quick tier, seed 11)
-  bound = max(1e-6, 1e-10 * K * cond)
+  bound = max(1e-6, 1e-9 * K * cond)
   if bound > 1e-2:
     j.skip('C11.stationarity-M', 'ill-conditioned')
   else:
